@@ -148,6 +148,10 @@ pub fn normalise(server: &str, lines: &[String]) -> Normalised {
                 } else {
                     v.extend(canon_user_mode(&m.params[1..].join("")));
                 }
+            } else if m.command.eq_ignore_ascii_case("NICK") {
+                // the server relays the sender's line as it came: a NICK with the old hop-count
+                // parameter still names the new nick in its first parameter (all that counts)
+                v.extend(m.params.iter().take(1).cloned());
             } else {
                 v.extend(m.params.iter().cloned());
             }
